@@ -23,6 +23,7 @@ fn main() {
         "emplace" => suite_emplace::run(&reg, &gen_types::defaults(), &suite_emplace::Cfg { seed, thorough, only, scale }, &mut out),
         "io" => suite_io_gen::run(&reg, &suite_io_gen::Cfg { seed, thorough, only, scale, which: "blocking".into() }, &mut out),
         "aio" => suite_io_gen::run(&reg, &suite_io_gen::Cfg { seed, thorough, only, scale, which: "async".into() }, &mut out),
+        "portable" => suite_portable::run(&suite_portable::Cfg { seed, thorough }, &mut out),
         "ops" => suite_ops::run(&reg, &suite_ops::Cfg { seed, thorough, only, scale }, &mut out),
         "exec" => {
             // lines on stdin: left-hand sides (anything after " => " is ignored)
